@@ -34,19 +34,11 @@ ACCEPTED = {
     ("nifly::StripsInfo::Sync", "hasPoints", "="): "versions without the flag always carry points; set on the branch where the flag is not transferred",
     ("nifly::NiParticleSystem::Sync", "index", "="): "the two data references mirror each other; assignment is a copy of an equal value",
     ("nifly::NiAVObject::Sync", "flags", "="): "16-bit wire field in old versions: a no-op while the flags fit the field",
-    ("nifly::ApplyMapToTriangles", "*", "*"): "derived partition triangles (PrepareVertexMapsAndTriangles), rebuilt from trueTriangles before writing",
-    ("nifly::Triangle::set", "*", "*"): "derived partition triangles (PrepareVertexMapsAndTriangles)",
-    ("nifly::NiSkinPartition::PartitionBlock::GenerateMappedTrianglesFromTrueTrianglesAndVertexMap", "*", "*"): "derived partition triangles, rebuilt before writing",
-    ("nifly::NiSkinPartition::PartitionBlock::GenerateVertexMapFromTrueTriangles", "*", "*"): "derived partition vertex map, rebuilt before writing",
-    ("nifly::NiSkinPartition::PartitionBlock::GenerateTrueTrianglesFromMappedTriangles", "*", "*"): "derived partition triangles",
-    ("nifly::NiSkinPartition::PrepareVertexMapsAndTriangles", "*", "*"): "derived partition data, rebuilt before writing",
-    ("nifly::NiSkinPartition::PrepareTriParts", "*", "*"): "derived partition data",
     ("nifly::NiVector::SyncSize", "*", "resize"): "clamp to the capacity of the count field: a no-op unless the array exceeds what the format can express",
     ("nifly::NiSyncVector::SyncSize", "*", "resize"): "clamp to the capacity of the count field",
     ("nifly::NiStringVector::Write", "*", "resize"): "clamp to the capacity of the count field",
     ("nifly::NiStringRefVector::Write", "*", "resize"): "clamp to the capacity of the count field",
     ("nifly::NiPalette::Sync", "*", "resize"): "palette normalised to its fixed entry count",
-    ("nifly::BSGeometryMeshData::Sync", "*", "*"): "packed wire representation derived from the float arrays before writing",
 }
 
 
@@ -67,6 +59,21 @@ NOT_A_QUERY = {
 }
 
 
+# Derived partition data rebuilt from trueTriangles by NiSkinPartition::Sync before it is written: per function, the members
+# (components of the changed path) it may rebuild, and why.  Nothing is accepted for a whole function.
+ACCEPTED_DERIVED = {
+    "nifly::NiSkinPartition::PartitionBlock::GenerateVertexMapFromTrueTriangles":
+        ({"vertexMap", "numVertices"}, "partition vertex map and its count, derived from trueTriangles when empty"),
+    "nifly::NiSkinPartition::PartitionBlock::GenerateMappedTrianglesFromTrueTrianglesAndVertexMap":
+        ({"triangles", "numTriangles", "trueTriangles"}, "mapped partition triangles, derived from trueTriangles and the vertex map when empty"),
+    "nifly::NiSkinPartition::PrepareVertexMapsAndTriangles":
+        ({"triangles"}, "unmapped partition triangles are a copy of trueTriangles when empty"),
+    "nifly::ApplyMapToTriangles": ({"triangles"}, "helper of the mapped-triangle derivation, applied to `triangles` only"),
+    "nifly::Triangle::set": ({"triangles"}, "helper of the mapped-triangle derivation (rotation of `triangles` elements)"),
+    "nifly::Triangle::rot": ({"triangles"}, "helper of the mapped-triangle derivation (rotation of `triangles` elements)"),
+}
+
+
 def strip_targs(name):
     out, depth = "", 0
     for ch in name:
@@ -83,9 +90,18 @@ def accepted_reason(fnname, path, op):
     f = strip_targs(fnname)
     leaf = [c for c in path if isinstance(c, str) and not c.startswith("[")]
     leaf = leaf[-1] if leaf else "*"
-    for key in ((f, leaf, op), (f, "*", op), (f, leaf, "*"), (f, "*", "*")):
+    for key in ((f, leaf, op), (f, "*", op), (f, leaf, "*")):
         if key in ACCEPTED:
             return ACCEPTED[key]
+    d = ACCEPTED_DERIVED.get(f)
+    if d is not None:
+        comps = [c for c in path if isinstance(c, str) and not c.startswith("[")]
+        # the outermost member below the partition element decides: `partitions[*].triangles[*].p1` is a change of `triangles`
+        for c in comps:
+            if c in d[0]:
+                return d[1]
+            if c != "partitions":
+                break
     return None
 
 
@@ -319,6 +335,45 @@ def run(F, chk):
                           "the query differs from the save before it" % (fn["name"], key, info["op"], info["fn"], hit[0]))
     chk.extra["read_only_queries"] = nq
     chk.floor(R5, 40)
+
+    # ---------------------------------------------------------------- R2.6 the language guarantee R2.5 leans on
+    R6 = chk.rule("R2.6", "const member functions of block classes cannot change the block: no block class (or value type nested in "
+                          "one) declares a `mutable` field that a Put writes, and no const_cast strips const from a block that is then written")
+    nrec = 0
+    wire_names_cache = {}
+    for name, r in sorted(F.recs.items()):
+        if not name.startswith("nifly::") or r.get("tmpl") == "pattern":
+            continue
+        if not (F.derives_from(name, "nifly::NiObject") or name == "nifly::NiObject" or _block_part(F, name) or name == "nifly::NiHeader"):
+            continue
+        nrec += 1
+        wire_names = wire_names_cache.setdefault("all", {c_ for ws in wire.values() for w in ws for c_ in w})
+        mut = [f for f in r.get("fields", []) if f.get("mutable") and f["name"] in wire_names]
+        for f in r.get("fields", []):
+            if f.get("mutable") and f["name"] not in wire_names:
+                chk.note("mutable field %s::%s is not written by any Put (a cache): not a C02 concern" % (name, f["name"]))
+        chk.instance(R6, ok=not mut, sample={"class": name, "mutable_fields": [f["name"] for f in mut]})
+        for f in mut[:1]:
+            chk.violation("R2.6", "C02/R2.6:%s::%s" % (name, f["name"]), "%s:%s" % (r.get("file", "?"), (f.get("loc") or "?").split(":")[0]),
+                          "%s::%s is `mutable`: const accessors may change it, so a read-only query can alter what the next save writes" % (name, f["name"]))
+    for fn in sorted(F.fns.values(), key=lambda f: f["id"]):
+        if fn.get("tmpl") == "pattern" or not fn.get("body") or not (fn.get("file") or "").startswith(("src/", "include/")):
+            continue
+        for n in walk(fn["body"]):
+            if n["k"] == "Cast" and n.get("ck") == "const":
+                # accepted only when the result is immediately re-qualified: passed on / returned as a pointer that the function's own
+                # (non-const overload) signature already allows.  Written-through uses are the violation.
+                written = False
+                for m in walk(fn["body"]):
+                    tgt = m["l"] if m["k"] == "Assign" else (m["e"] if m["k"] == "Unary" and m["op"] in ("++", "--") else None)
+                    if is_node(tgt) and any(x is n for x in walk(tgt)):
+                        written = True
+                chk.instance(R6, ok=not written, sample={"fn": fn["name"], "const_cast": show(n)[:80], "written_through": written})
+                if written:
+                    chk.violation("R2.6", "C02/R2.6:const_cast:%s" % fn["name"], where(fn, n),
+                                  "%s writes through a const_cast: a const accessor changes the model" % fn["name"])
+    chk.extra["block_records_checked_for_mutable"] = nrec
+    chk.floor(R6, 300)
 
     # ---------------------------------------------------------------- R2.3
     fin = F.fn1("nifly::NifFile::FinalizeData")
